@@ -227,7 +227,22 @@ func (obj *SparseInt32Vector) Swap(i, j int) {
   if i < 0 || j < 0 || i >= obj.n || j >= obj.n {
     panic("index out of bounds")
   }
-  obj.values[i], obj.values[j] = obj.values[j], obj.values[i]
+  vi, oki := obj.values[i]
+  vj, okj := obj.values[j]
+  // an absent entry must stay absent, otherwise a placeholder without
+  // scalar and without index entry would be stored
+  if okj {
+    obj.values[i] = vj
+    obj.indexInsert(i)
+  } else {
+    delete(obj.values, i)
+  }
+  if oki {
+    obj.values[j] = vi
+    obj.indexInsert(j)
+  } else {
+    delete(obj.values, j)
+  }
 }
 func (obj *SparseInt32Vector) AppendScalar(scalars ...Scalar) Vector {
   r := obj.Clone()
